@@ -42,9 +42,10 @@
 (* that are still queued when another request's reload replaces the layout. *)
 (*                                                                         *)
 (* params = [files  : <<kind..>>  initial content kind of every file,       *)
-(*           valid  : <<kind..>>  kinds that parse,                         *)
-(*           mayfail: <<kind..>>  valid kinds whose reload needs a step that *)
-(*                    may fail after parsing (all or nothing accepted),      *)
+(*           valid  : <<kind..>>  kinds whose reload can succeed: they parse   *)
+(*                    and no step before the first assignment fails (a file  *)
+(*                    that parses but needs xset where xset cannot be run is  *)
+(*                    not valid: all-or-nothing then means nothing),          *)
 (*           first  : [kind |-> name of its first deflayer],                *)
 (*           req    : <<[c |-> code, k |-> "lrld"|"next"|"prev"|"num", n |-> Nat]..>>  request keys (every layer), *)
 (*           idxsem : "inuse" (statement: a failed request leaves no trace)   *)
@@ -87,10 +88,7 @@ FinalInUse(m) == SetFold(m.pend, {m.base}, m.base, NFiles(m))
 TargetsReq(m) == { FoldSel(SubSeq(m.pend, 1, j), m.cbase, NFiles(m)) : j \in 1..Len(m.pend) }
 FinalReq(m) == FoldSel(m.pend, m.cbase, NFiles(m))
 Targets(m) == IF m.p.idxsem = "requested" THEN TargetsReq(m) ELSE TargetsInUse(m)
-\* contents whose application must succeed: they parse and no later step of the reload can fail (`mayfail`: kinds that
-\* parse but need an external step - xset - that may fail; then all or nothing is accepted, a half-applied reload is not)
-MustApply(m, k) == IsValid(m, k) /\ ~InSeq(m.p.mayfail, k)
-ValidNow(m) == {i \in 0..(NFiles(m) - 1) : MustApply(m, m.files[i + 1])}
+ValidNow(m) == {i \in 0..(NFiles(m) - 1) : IsValid(m, m.files[i + 1])}
 
 ReqOf(m, c) == LET I == {i \in DOMAIN m.p.req : m.p.req[i].c = c} IN
                IF I = {} THEN <<>> ELSE <<m.p.req[CHOOSE i \in I : TRUE]>>
@@ -116,7 +114,7 @@ MonIn(m, r) ==
                             !.okall = IF m1.pend = <<>> THEN ValidNow(m1) ELSE @]
   IN [m2 EXCEPT !.down = DownAfter(a.out, @), !.since = 0, !.quiet = 0]
 
-MonW(m, r) == [m EXCEPT !.files[r.i + 1] = r.k, !.okall = IF MustApply(m, r.k) THEN @ ELSE @ \ {r.i}]
+MonW(m, r) == [m EXCEPT !.files[r.i + 1] = r.k, !.okall = IF IsValid(m, r.k) THEN @ ELSE @ \ {r.i}]
 
 IdxStr(i) == ToString(i)
 ReloadMsgs(msgs) == SelectSeq(msgs, LAMBDA x : x[1] = "reload")
@@ -143,11 +141,11 @@ ReloadChecks(m, a, down1, since1) ==
             ELSE IF m.pend = <<>> /\ ~m.loose
             THEN Fail(m, "F1: the configuration was replaced although no request was outstanding (a failed request must not linger)")
             ELSE IF \A x \in T \cup Tc : ~IsValid(m, m.files[x + 1])
-            THEN Fail(m, "F1: the configuration was replaced although the requested file does not parse")
+            THEN Fail(m, "F1: the configuration was replaced although the reload of the requested file cannot succeed (it does not parse, or a step of the reload fails)")
             ELSE IF t < 0
             THEN Fail(m, "F3: the reload loaded a file that the requests do not select, or an unknown content")
             ELSE IF ~IsValid(m, k)
-            THEN Fail(m, "F1: a file that does not parse was applied" \o Tag(k))
+            THEN Fail(m, "F1: a file whose reload cannot succeed was applied" \o Tag(k))
             ELSE IF ~(t \in T) /\ t \in Tc
             THEN Fail(m, "F3x: index selection continued from a file whose reload had failed, not from the file in use: in use "
                          \o IdxStr(m.base) \o ", requests select " \o ToString(T) \o ", loaded " \o IdxStr(t))
